@@ -106,22 +106,24 @@ func parseDotNode(line string) (tla.State, bool, bool, error) {
 }
 
 // model runs TLC on one module of spec/accounting with a state dump and
-// returns the states. actions lists the actions that must have been taken
-// (checked in the thorough tier, where coverage is collected).
-func model(c *vrun.Ctx, module string, workers int, actions []string) ([]tla.State, error) {
+// streams the states (in the order TLC found them: a state comes after the
+// state it was generated from) to fn. actions lists the actions that must have
+// been taken (checked in the thorough tier, where coverage is collected).
+func model(c *vrun.Ctx, module string, workers int, actions []string, fn func(st tla.State) error) error {
 	cfg := module + "_quick.cfg"
 	if c.Thorough {
 		cfg = module + "_thorough.cfg"
+		workers += 2
 	}
 	dump := filepath.Join(c.Scratch, module+"-graph")
 	res, err := tlc.Run(tlc.Opts{SpecDir: c.SpecDir("accounting"), Module: module, Config: cfg, Workers: workers,
 		Timeout: 25 * time.Minute, Coverage: c.Thorough, Scratch: c.Scratch, HeapGB: 4,
 		Extra: []string{"-dump", "dot,actionlabels", dump}})
 	if err != nil {
-		return nil, err
+		return err
 	}
 	if !res.OK {
-		return nil, fmt.Errorf("%s.tla: TLC reports %s %s on the specification itself (not a verdict about btcd)", module, res.ErrKind, res.ErrName)
+		return fmt.Errorf("%s.tla: TLC reports %s %s on the specification itself (not a verdict about btcd)", module, res.ErrKind, res.ErrName)
 	}
 	c.Logf("%s.tla: %d distinct states, %d generated, %.1fs", module, res.Distinct, res.Generated, res.WallS)
 	c.AddModel(res.Distinct, res.Generated)
@@ -129,22 +131,43 @@ func model(c *vrun.Ctx, module string, workers int, actions []string) ([]tla.Sta
 	if c.Thorough {
 		for _, a := range actions {
 			if res.ActionCount[a] == 0 {
-				return nil, fmt.Errorf("%s.tla: action %s never taken (coverage %v)", module, a, res.ActionCount)
+				return fmt.Errorf("%s.tla: action %s never taken (coverage %v)", module, a, res.ActionCount)
 			}
 		}
 	}
-	var states []tla.State
-	if _, err := dotStates(dump+".dot", func(st tla.State, init bool) error {
-		states = append(states, st)
-		return nil
-	}); err != nil {
-		return nil, fmt.Errorf("%s.tla dump: %w", module, err)
+	defer os.Remove(dump + ".dot")
+	n, err := dotStates(dump+".dot", func(st tla.State, init bool) error { return fn(st) })
+	if err != nil {
+		return fmt.Errorf("%s.tla dump: %w", module, err)
 	}
-	os.Remove(dump + ".dot")
-	if int64(len(states)) != res.Distinct {
-		return nil, fmt.Errorf("%s.tla: dump has %d states, TLC reported %d", module, len(states), res.Distinct)
+	if int64(n) != res.Distinct {
+		return fmt.Errorf("%s.tla: dump has %d states, TLC reported %d", module, n, res.Distinct)
 	}
-	return states, nil
+	return nil
+}
+
+// batcher hands the streamed states to a worker pool in slices, so that a
+// large dump is never held in memory as a whole.
+type batcher struct {
+	c     *vrun.Ctx
+	size  int
+	items []tla.State
+	work  func(i int, st tla.State)
+	n     int
+}
+
+func (b *batcher) add(st tla.State) {
+	b.items = append(b.items, st)
+	if len(b.items) >= b.size {
+		b.flush()
+	}
+}
+
+func (b *batcher) flush() {
+	items, base := b.items, b.n
+	b.c.Parallel(len(items), func(i int) { b.work(base+i, items[i]) })
+	b.n += len(items)
+	b.items = nil
 }
 
 // stats counts cases per kind.
